@@ -40,12 +40,34 @@ class UnwindBase(BaseException):
 
 
 def arith(what):
-    h = h1(np.array([0.5, 0.5]), np.array([0.0, 1.0]))
+    h = h1(np.array([0.5, 1.5, 1.5]), np.array([0.0, 1.0, 2.0]))
     try:
         if what == "array":
-            h + np.ones(1)
-        else:
+            h + np.ones(2)
+        elif what == "rarray":
+            np.ones(2) + h
+        elif what == "rzeros":
+            np.zeros(2) + h
+        elif what == "iadd_array":
+            h += np.ones(2)
+        elif what == "mul_array":
+            h * np.full(2, 2.0)
+        elif what == "rmul_array":
+            np.full(2, 2.0) * h
+        elif what == "sub_array":
+            h - np.ones(2)
+        elif what == "div_array":
+            h / np.full(2, 2.0)
+        elif what == "rlist":
+            [1, 1] + h
+        elif what == "negative":
             h * (-1)
+        elif what == "sub_below_zero":
+            with warnings.catch_warnings():
+                warnings.simplefilter("ignore")
+                h - (h + h)
+        else:
+            raise RuntimeError("unknown arithmetic " + what)
         return True
     except (TypeError, ValueError):
         return False
